@@ -49,7 +49,7 @@ for h, n, why in (
     ("80b1e4deb0", 2, "source address of a received datagram is always reported by recvmsg"),
     ("d39023a62f", 1, "local address of an accepted TCP connection"),
     ("6bd8eb597a", 1, "local address of an accepted TCP connection"),
-    ("f2d158d343", 1, "local address of a connected UDP socket"),
+    ("92d7502898", 1, "local address of a connected UDP socket"),
     ("16674eaf0e", 1, "difference of two Instant::now() readings of the monotonic clock, later minus earlier"),
     ("bcfd80baec", 1, "Instant + constant 120 s"),
     ("f7dbcef064", 1, "Instant + constant 120 s"),
@@ -157,7 +157,7 @@ R("eb5fb1c324", "internal", "x[6..] in the arms guarded by x.starts_with(\"match
 R("79e1895d07", "internal", "network + i with i below the host mask of the same subnet: the network address has zero host bits", props=C19,
   requires=("inv",))
 R("5f75373222", "internal", "parse_interface returns Ok(Some(_)) for a hash and Err otherwise; it never returns Ok(None)", props=C19)
-R("1f3c30b345", "internal", "parse_interface returns Ok(Some(_)) for a hash and Err otherwise; it never returns Ok(None)", props=C19)
+R("a8adc4aea8", "internal", "parse_interface returns Ok(Some(_)) for a hash and Err otherwise; it never returns Ok(None)", props=C19)
 
 # ================================================================== C19: configuration-dependent sites of the service scope
 R("09b85350de", "internal", "Prefix4::new / Prefix6::new assert the length: the only non-test callers pass prefixlen - 96 of a ::ffff:0:0/96+ prefix "
